@@ -37,6 +37,8 @@ pub struct Scenario {
     /// real-level policy: explicit list of (proc, kill?) decisions; when exhausted, round-robin to completion
     pub policy: Vec<Pol>,
     pub class: String,
+    /// every server is pid 1 of its own pid namespace (servers in separate containers on one hub directory)
+    pub pidns: bool,
 }
 
 fn h32(c: &[u8]) -> [u8; 32] {
@@ -87,6 +89,7 @@ pub fn run_scenario(sc: &Scenario, workdir: &str, shim: &str, copia: &str) -> Ru
     }
     let mut fails = vec![];
     let mut ctl = Ctl::new(&dir, shim, copia);
+    ctl.pidns = sc.pidns;
     let n = sc.progs.len();
     let ids: Vec<String> = (0..n).map(|i| format!("p{}", i)).collect();
     // known contents -> for canonical hashes
@@ -528,7 +531,7 @@ pub fn fmt_scenario(sc: &Scenario) -> String {
         progs.push_str(&format!("P{}={} ", i, if rs.is_empty() { "-".to_string() } else { rs.join(",") }));
     }
     let pol = sc.policy.iter().map(|p| match p { Pol::Step(i) => format!("{}", i), Pol::Kill(i) => format!("{}k", i), Pol::Until(i, c) => format!("{}*{}", i, c), Pol::StepUntil(i, c) => format!("{}+{}", i, c) }).collect::<Vec<_>>().join(",");
-    format!("{} I={} {}Y={}", sc.id, init, progs, if pol.is_empty() { "-".to_string() } else { pol })
+    format!("{} I={} {}Y={}{}", sc.id, init, progs, if pol.is_empty() { "-".to_string() } else { pol }, if sc.pidns { " NS=1" } else { "" })
 }
 
 fn parse_exp(s: &str) -> Option<Vec<u8>> {
@@ -538,10 +541,12 @@ fn parse_exp(s: &str) -> Option<Vec<u8>> {
 pub fn parse_scenario(line: &str) -> Scenario {
     let mut it = line.split_whitespace();
     let id = it.next().unwrap().parse().unwrap();
-    let mut sc = Scenario { id, init: vec![], progs: vec![], policy: vec![], class: "replay".into() };
+    let mut sc = Scenario { id, init: vec![], progs: vec![], policy: vec![], class: "replay".into(), pidns: false };
     for f in it {
         let (k, v) = f.split_once('=').unwrap();
-        if k == "I" {
+        if k == "NS" {
+            sc.pidns = v == "1";
+        } else if k == "I" {
             if v != "-" {
                 for e in v.split(';') {
                     let (p, c) = e.split_once(':').unwrap();
@@ -660,14 +665,16 @@ pub fn gen_scenarios(seed: u64, tier: &str) -> Vec<Scenario> {
             let u = |i: usize, c: &str| Pol::Until(i, c.to_string());
             let su = |i: usize, c: &str| Pol::StepUntil(i, c.to_string());
             let policy = vec![u(0, "flock"), Pol::Step(0), u(1, "flock"), Pol::Step(1), su(0, "funlock"), Pol::Step(0), u(1, "rename"), u(2, "funlock"), Pol::Step(2)];
-            out.push(Scenario { id, init, progs: vec![vec![p0], vec![p1], vec![p2]], policy, class: "directed:lock-handoff".into() });
+            out.push(Scenario { id, init, progs: vec![vec![p0], vec![p1], vec![p2]], policy, class: "directed:lock-handoff".into(), pidns: false });
             continue;
         }
         let steps = 20 + r.below(60) as usize;
         let kill_at = if r.chance(1, 4) { Some(r.below(steps as u64) as usize) } else { None };
         let policy: Vec<Pol> = (0..steps).map(|k| { let i = r.below(nproc as u64) as usize; if Some(k) == kill_at { Pol::Kill(i) } else { Pol::Step(i) } }).collect();
-        let class = format!("n{}{}", nproc, if kill_at.is_some() { ":kill" } else { "" });
-        out.push(Scenario { id, init, progs, policy, class });
+        // one scenario in six runs every server as pid 1 of its own pid namespace (equal pids in different processes)
+        let pidns = r.chance(1, 6);
+        let class = format!("n{}{}{}", nproc, if kill_at.is_some() { ":kill" } else { "" }, if pidns { ":pidns" } else { "" });
+        out.push(Scenario { id, init, progs, policy, class, pidns });
     }
     out
 }
